@@ -22,6 +22,12 @@
                                   the words inside '…' as identifiers and raises Internal (no gather fallback).
     C09-F4 (signature + neutraliser) the gather path under-gathers (C45-F1/F2): the same statement over a FULL gather of
                                   every table (harness neutraliser `neutral_fullgather`) gives the single-node answer.
+    C09-F5 (signature + neutraliser) the TwoPhase merge statement with >= 2 GROUP BY keys is answered wrongly by the local
+                                  engine (C03-F1, GroupKeyReduction's unique-key estimate over the partial table): the same
+                                  partial rows merged without that rule (`neutral_merge_nogkr`) give the single-node answer.
+    C09-F6 (signature + neutraliser) the statement's single-node outcome depends on the storage layout: single-node over
+                                  IN-MEMORY tables (`neutral_mem1`) fails / answers exactly like the distributed run, whose
+                                  gather and merge stages run over in-memory tables (a C04-class defect, not a split defect).
 -/
 import Driver.SqlCore
 import IQE.Engine.DistPlan
@@ -153,7 +159,9 @@ def msgOf (j : Json) : String := (getStr j "msg").toOption.getD ""
 
 /-- which listed finding explains a distributed run that FAILED with an error where the single-node run succeeded -/
 def explainError (c : Case) (d : DistInfo) (msg : String) (noselfOk : Bool) : Option String :=
-  if (msg.splitOn "no shard returned a schema").length > 1 && predictsError { localEmptyNoSchema := true } c d && noselfOk then some "C09-F1"
+  -- the neutraliser (same cluster, initiator without a shard) exists only when the initiator holds an active shard
+  let noNeutraliser := d.self.isNone || d.active.all (fun (_, sh) => sh.isEmpty)
+  if (msg.splitOn "no shard returned a schema").length > 1 && predictsError { localEmptyNoSchema := true } c d && (noselfOk || noNeutraliser) then some "C09-F1"
   else if (msg.splitOn "Expression not supported in filter: Aggregate").length > 1 && predictsError { havingFreshAggregate := true } c d then some "C09-F2"
   else if (msg.splitOn "distributed rewrite left").length > 1 && predictsError { closureReadsStrings := true } c d then some "C09-F3"
   else none
@@ -176,6 +184,20 @@ def hasSubqueryOrCte : Query → Bool
   | .window _ q => hasSubqueryOrCte q
   | .withCte _ _ => true
 end
+
+/-- number of GROUP BY keys of the statement's aggregate (0 when there is none) -/
+def groupKeys (q : Query) : Nat :=
+  let (_, _, body) := peel q
+  match aggParts body with | some (_, _, n) => n | none => 0
+
+def sameAs (c : Case) (a b : Table) : Bool :=
+  match Spec.sameAnswer fo fns c.plan a b with | .ok true => true | _ => false
+
+/-- outcome of neutraliser `key` for run `k` (per-run neutralisers) -/
+def neutralOf (i : Json) (key k : String) : Option Outcome :=
+  match (getObj i key).toOption.bind (fun n => (getObj n k).toOption) with
+  | some nj => (outcomeOfJson nj).toOption
+  | none => none
 
 def handler : Driver.Handler := fun cj i => do
   let c := { (← caseOfJson cj) with impl := i }
@@ -209,39 +231,38 @@ def handler : Driver.Handler := fun cj i => do
   let model := Json.mkObj [("admitted", Json.arr ((List.range nTables).map fun T =>
       Json.str (match scatterShape T c.plan with | some s => s.name | none => "-")).toArray)]
   -- O
+  -- the single-node outcome over IN-MEMORY tables (neutraliser of C09-F6), with its message
+  let mem1J := (getObj i "neutral_mem1").toOption
+  let mem1O : Option Outcome := mem1J.bind fun j => (outcomeOfJson j).toOption
+  let mem1Msg : String := match mem1J with | some j => msgOf j | none => ""
   let judgeDist (k : String) (o : Outcome) (msg : String) : Option (String × Option String) :=   -- (why, attribution)
     let d := infoOf k
+    let okLike (x : Option Outcome) (t0 : Table) : Bool := match x with | some (.ok t) => sameAs c t0 t | _ => false
     match o, localO with
     | .panic m, _ => some (s!"engine panicked under {k}: {m.take 80}", none)
-    | .err e, some (.ok _) =>
-      let noselfOk := match (getObj i "neutral_noself").toOption.bind (fun n => (getObj n k).toOption) with
-        | some nj => (match outcomeOfJson nj, localO with
-            | .ok (.ok t), some (.ok t0) => (match Spec.sameAnswer fo fns c.plan t0 t with | .ok true => true | _ => false)
-            | _, _ => false)
-        | none => false
-      let fullOk := match (getObj i "neutral_fullgather").toOption.bind (fun n => (getObj n k).toOption) with
-        | some nj => (match outcomeOfJson nj, localO with
-            | .ok (.ok t), some (.ok t0) => (match Spec.sameAnswer fo fns c.plan t0 t with | .ok true => true | _ => false)
-            | _, _ => false)
-        | none => false
+    | .err e, some (.ok t0) =>
+      let noselfOk := okLike (neutralOf i "neutral_noself" k) t0
+      let fullOk := okLike (neutralOf i "neutral_fullgather" k) t0
+      let memSame := match mem1O with | some (.err _) => mem1Msg.take 60 == msg.take 60 | _ => false
       let attr := match explainError c d msg noselfOk with
         | some a => some a
-        | none => if d.shape == "Gather" && fullOk && hasSubqueryOrCte c.plan then some "C09-F4" else none
+        | none =>
+          if d.shape == "Gather" && fullOk && hasSubqueryOrCte c.plan then some "C09-F4"
+          else if memSame then some "C09-F6" else none
       some (s!"single-node run succeeds but {k} ({d.shape}) fails: {e}: {msg.take 100}", attr)
     | .ok _, some (.err e) => some (s!"single-node run fails ({e}) but {k} succeeds", none)
     | .ok t, some (.ok t0) =>
       if c.engineDefined then none else
-      (match Spec.sameAnswer fo fns c.plan t0 t with
-       | .ok true => none
-       | .ok false =>
-         let fullOk := match (getObj i "neutral_fullgather").toOption.bind (fun n => (getObj n k).toOption) with
-           | some nj => (match outcomeOfJson nj with
-               | .ok (.ok t2) => (match Spec.sameAnswer fo fns c.plan t0 t2 with | .ok true => true | _ => false)
-               | _ => false)
-           | none => false
-         some (s!"{k} ({d.shape}) and the single-node run disagree: {diffSummary t t0}",
-               if d.shape == "Gather" && fullOk && hasSubqueryOrCte c.plan then some "C09-F4" else none)
-       | .error _ => none)
+      if sameAs c t0 t then none
+      else
+        let fullOk := okLike (neutralOf i "neutral_fullgather" k) t0
+        let mergeOk := okLike (neutralOf i "neutral_merge_nogkr" k) t0
+        let memSame := match mem1O with | some (.ok tm) => sameAs c tm t | _ => false
+        let attr :=
+          if d.shape == "Gather" && fullOk && hasSubqueryOrCte c.plan then some "C09-F4"
+          else if d.shape == "TwoPhase" && mergeOk && groupKeys c.plan ≥ 2 then some "C09-F5"
+          else if memSame then some "C09-F6" else none
+        some (s!"{k} ({d.shape}) and the single-node run disagree: {diffSummary t t0}", attr)
     | _, _ => none
   let localPanic : Option String := match localO with | some (.panic m) => some s!"engine panicked under local: {m.take 80}" | _ => none
   let fails := dists.filterMap fun (k, o, m) => judgeDist k o m
@@ -257,8 +278,18 @@ def handler : Driver.Handler := fun cj i => do
     [s!"shape:{if d.shape == "" then "none" else d.shape}", s!"n:{d.n}", (if d.self.isSome then "self" else "noself")] ++
     (if act.any (· < d.n) then ["idle_node"] else []) ++ (if act.any (· ≥ 2) then ["multi_shard"] else []) ++
     (if act.any (· == 0) then ["no_active_shard"] else [])
+  -- how exactly do the deviation switches mirror the code?  (hit = predicted and observed, miss = observed only, spurious = predicted only)
+  let devTags := dists.flatMap fun (k, o, m) =>
+    let d := infoOf k
+    let mk (name : String) (dev : Dev) (needle : String) : List String :=
+      let pred := predictsError dev c d
+      let obs := match o with | .err _ => (m.splitOn needle).length > 1 | _ => false
+      if pred && obs then [s!"dev:{name}:hit"] else if obs then [s!"dev:{name}:miss"] else if pred then [s!"dev:{name}:spurious"] else []
+    mk "F1" { localEmptyNoSchema := true } "no shard returned a schema" ++
+    mk "F2" { havingFreshAggregate := true } "Expression not supported in filter: Aggregate" ++
+    mk "F3" { closureReadsStrings := true } "distributed rewrite left"
   let allRight := labels.all (·.endsWith ":right")
-  let tags := (c.tags ++ [topShape c.plan] ++ labels ++ shapeTags ++
+  let tags := (c.tags ++ [topShape c.plan] ++ labels ++ shapeTags ++ devTags ++
     (if skipSpec then ["skip:spec"] else if allRight then ["spec:agree"] else ["spec:disagree"])).eraseDups
   let oks := runs.filterMap fun (_, o, _) => match o with | .ok t => some t | _ => none
   pure { model := model, k := kBad.isEmpty, oracle := ofail, nt := oks.length ≥ 2 && oks.any (!·.isEmpty), tags := tags,
